@@ -1,0 +1,14 @@
+//go:build verif
+
+package eval
+
+import (
+	"github.com/cedar-policy/cedar-go/internal/eval"
+	"github.com/cedar-policy/cedar-go/x/exp/ast"
+)
+
+// VerifFold re-exports the internal constant folder for the verification harness (build tag verif only).
+func VerifFold(n ast.IsNode) ast.IsNode { return eval.VerifFold(n) }
+
+// VerifFoldPolicy re-exports the internal policy folder for the verification harness (build tag verif only).
+func VerifFoldPolicy(p *ast.Policy) *ast.Policy { return eval.VerifFoldPolicy(p) }
